@@ -112,6 +112,8 @@ class QuantDriver:
         m = self.m
         op = ev["op"]
         mm = []
+        if op == "pfx":
+            return self._filter(self._pfx(ev, stats))
         a = self.pool[ev["i"] - 1]
         arec = self.sys["pool"][ev["i"] - 1]
         b = brec = None
@@ -208,6 +210,34 @@ class QuantDriver:
             if got != want_phys and abs(got - want_phys) > Fraction(1e-9 if self.approx else 1e-12) * scale:
                 mm.append(self._mm(vprop, "%s:physical-value" % op, "%s: SI value %s, expected %s" % (desc, float(got), float(want_phys))))
         return self._filter(mm)
+
+    def _pfx(self, ev, stats):
+        """a prefix written on either side of a unit that may already carry one"""
+        m = self.m
+        w = self.units[ev["i"] - 1]
+        wrec = self.sys["units"][ev["i"] - 1]
+        pre = m.Prefix(2 if ev["dec"] else 10, ev["n"])
+        desc = "%s %s (%s)" % ("prefix*unit" if ev["j"] == 1 else "unit*prefix", "%d^%d" % (2 if ev["dec"] else 10, ev["n"]), self._desc({"op": "", "i": 1}, {"u": wrec, "m": [1, 1], "k": ""}, None))
+        try:
+            r = pre * w if ev["j"] == 1 else w * pre
+        except Exception as ex:
+            return [self._mm("C11", "pfx:raised:%s" % type(ex).__name__, desc)]
+        stats["ok"] = stats.get("ok", 0) + 1
+        mm = []
+        if not isinstance(r, m.Unit):
+            return [self._mm("C11", "pfx:result-type:%s" % type(r).__name__, desc)]
+        mixed = bool(ev["unit"]["p10"] and ev["unit"]["p2"])
+        nf = None if mixed else self._nf(r)
+        wantnf = (ev["unit"]["p10"], ev["unit"]["p2"], tuple(sorted((k, e) for k, e in ev["unit"]["f"].items() if e)))
+        if nf is not None and nf != wantnf:
+            mm.append(self._mm("C11", "pfx:%s:normal-form" % ("left" if ev["j"] == 1 else "right"), "%s gave %s, expected %s" % (desc, nf, wantnf)))
+        size = self.usize(r)
+        want = pvf(ev["phys"]["pv"])
+        if size is not None and abs(size - want) > Fraction(1e-9 if self.approx else 1e-15) * want:
+            mm.append(self._mm("C11", "pfx:%s:scale" % ("left" if ev["j"] == 1 else "right"), "%s has scale %s, expected %s" % (desc, float(size), float(want))))
+        if ev["n"] == 0 and r is not w:
+            mm.append(self._mm("C11", "pfx:identity-prefix-not-neutral", desc))
+        return mm
 
     def _nf(self, unit):
         p = unit.prefix
@@ -309,7 +339,7 @@ def tlc_quant(label, size, group="all", timeout=3000):
 
 
 GROUPS = {"C03": ["addsub", "muldiv", "unary", "cmp"], "C06": ["addsub", "muldiv", "unary", "cmp"],
-          "C11": ["muldiv", "unary", "addsub"], "C12": ["cmp"]}
+          "C11": ["prefix", "muldiv", "unary", "addsub"], "C12": ["cmp"]}
 
 
 def run_quant(prop, tier, seed):
@@ -325,7 +355,7 @@ def run_quant(prop, tier, seed):
         v.add_tlc(res, "MC_Quantities pool=%d ops=%s" % (size, g))
         system = res.exports["SYS"][0]
         cases = res.exports.get("E", [])
-        if prop == "C11":
+        if prop == "C11" and g != "prefix":
             pool = system["pool"]
             cases = [c for c in cases if _prefixed(pool[c["i"] - 1]) or (c["op"] in ("add", "sub", "mul", "div") and _prefixed(pool[c["j"] - 1]))]
         if not cases:
